@@ -243,6 +243,21 @@ CHECKS["C17"] = dict(
     technique=TECH,
 )
 
+CHECKS["C03"] = dict(
+    category="other",
+    text=("BOUNDED, not proved: 'the expanded token sequence equals the one a conforming preprocessor produces' has no "
+          "contract within reach (the specification of MacroExpander.expand is Prosser's algorithm), so the real expander is "
+          "compared token for token with `gcc -E -P` on seeded random macro tables (object-like, function-like with up to 2 "
+          "parameters + variadic, # and ##, nested / parenthesised / empty arguments, direct, mutual and argument-borne "
+          "recursion) and invocations - 150 pairs quick, 5000 thorough - and -DNAME / -DNAME=value / -D'NAME(args)=value' are "
+          "compared with the corresponding #define. Discharged: the macro-table contracts (shared with C01) and syntactic "
+          "obligations tying the -D path to the #define path and the depth backstop. Three defects were fixed, four "
+          "deviations are recorded findings."),
+    design_ref="DESIGN.md section 5 C03, section 6, section 9",
+    note="A9 gcc is the oracle; programs gcc diagnoses are outside the quantifier; argument tokens spelled like parameter names are exercised only by a fixed recorded-finding input.",
+    technique="bounded differential check against gcc -E (native) + macro-table contracts (pyvc+z3); deductive proof of the expander not applicable",
+)
+
 NA = {}
 
 DEFAULT_NA = "check not built yet (work in progress; see DESIGN.md section 5 for the plan)"
